@@ -9,9 +9,17 @@ package jsonrpc2
 // request ids are drawn from Client.id through sync/atomic only, so concurrent callers never share an id
 //@ atomic_only Client.id
 
+// lastCall*: the most recent call made through a Service on the current path (ghost)
+//@ ghost var lastCallRecv ref
+//@ ghost var lastCallMethod string
+//@ ghost var lastCallParams []interface{}
+//@ ghost var lastCallOK bool
+
 //@ interface jsonrpc2.Service.Call(ctx, result, method, params) (err)
+//@ requires this != nil
 //@ defines [effect] effects == old(effects) + 1
-//@ modifies effects
+//@ defines [last]   lastCallRecv == ref(this) && lastCallMethod == method && lastCallParams == params && lastCallOK == (err == nil)
+//@ modifies effects, lastCallRecv, lastCallMethod, lastCallParams, lastCallOK
 
 // invoked: how many registered methods have been run (ghost); lastInvoked: which one
 //@ ghost var invoked int
